@@ -1,12 +1,12 @@
 (* Pack/Lockstep.v — whole-format unpack∘pack: the two option loops run in lockstep (proofs). *)
 From Coq Require Import ZArith List Bool Lia.
-From GV Require Import Pack.NumStrModel Pack.Model Pack.Bytes Pack.IntRound.
+From GV Require Import Pack.NumStrModel Pack.NumStrProofs Pack.Model Pack.Bytes Pack.IntRound.
 Import ListNotations.
 Open Scope Z_scope.
 
 Definition val_ok (v : value) : Prop :=
   match v with
-  | VInt n => - Model.H <= n < Model.H /\ len (format_int n) < Model.H   (* the second part holds for every int64 (at most 20 characters); kept as a hypothesis *)
+  | VInt n => - Model.H <= n < Model.H
   | VFlt b => 0 <= b < W
   | VStr s => len s < Model.H
   | VNil => True
@@ -216,7 +216,7 @@ Definition irange (n : Z) : Prop := - Model.H <= n < Model.H.
 Lemma to_int_ok v a : val_ok v -> to_int v = CvOk a -> irange a.
 Proof.
   destruct v; cbn; intros V E; try discriminate.
-  - injection E as <-. exact (proj1 V).
+  - injection E as <-. exact V.
   - destruct (float_to_int bits) eqn:F; [|discriminate]. injection E as <-. eapply float_to_int_range; eauto.
 Qed.
 Definition frange (b : Z) : Prop := 0 <= b < W.
@@ -230,7 +230,8 @@ Definition srange (s : list Z) : Prop := len s < Model.H.
 Lemma to_str_ok v a : val_ok v -> to_str v = CvOk a -> srange a.
 Proof.
   destruct v; cbn; intros V E; try discriminate; injection E as <-.
-  - exact (proj2 V).
+  - unfold srange, len. pose proof (format_int_length n ltac:(unfold minint, maxint, Model.H in *; lia)).
+    unfold Model.H. lia.
   - exact V.
 Qed.
 
@@ -386,9 +387,139 @@ Proof.
   rewrite EU, <- B, ES. exact E1.
 Qed.
 
+(* ------------------------------------------------------------ f, c, z, s *)
+Lemma sim_if (P : pst -> Prop) (c : bool) e kp ku : Sim P kp ku -> Sim P (fun s => if c then kp s else PFail e) ku.
+Proof. intros HS s s1 Hpre HP E. destruct c; [|discriminate]. exact (HS s s1 Hpre HP E). Qed.
+
+Lemma opt_f : Sim T (pack_opt 102) (unpack_opt 102).
+Proof.
+  open_opt. apply sim_align; [lia | closed | ].
+  unfold p_next_float. apply (sim_next _ Z to_float frange); [closed | exact to_float_ok | ].
+  intros f Hf. apply sim_if. unfold p_put_int.
+  set (b := f64_to_f32 f mod 4294967296).
+  apply (leaf_sim _ (fun s => enc (little (p_rd s)) 4 b) (VFlt (f32_to_f64 b))).
+  intros s us t _ HR Hr. destruct HR as (A & _).
+  rewrite (u_read_app us _ _ _ _ Hr) by (now rewrite len_enc).
+  change (u_rd (u_adv us 4)) with (u_rd us). rewrite <- A, dec_enc, len_enc.
+  change (256 ^ Z.of_nat 4) with 4294967296. subst b. rewrite Z.mod_mod by lia. reflexivity.
+Qed.
+
+Lemma to_i64_range u : - Model.H <= to_i64 u < Model.H.
+Proof.
+  unfold to_i64, Model.H, W. pose proof (Z.mod_pos_bound u 18446744073709551616 ltac:(lia)).
+  destruct (Z.ltb_spec (u mod 18446744073709551616) 9223372036854775808); lia.
+Qed.
+
+Lemma opt_c : Sim T (pack_opt 99) (unpack_opt 99).
+Proof.
+  open_opt. apply sim_align; [lia | closed | ].
+  intros s s1 Hpre HP E.
+  destruct (mustGetOptSize (p_fmt s)) as [[e|n] rest] eqn:ES; [discriminate|].
+  unfold p_next_str, p_next in E. cbn [p_set_fmt p_vals] in E.
+  destruct (p_vals s) as [|v vs] eqn:EV; [discriminate|].
+  destruct (to_str v) as [str| |] eqn:ET; try discriminate.
+  cbn [p_pop] in E. unfold p_write_str in E.
+  match type of E with match (if ?c then _ else _) with _ => _ end = _ => destruct c eqn:ED; [discriminate|] end.
+  injection E as <-.
+  destruct Hpre as [V M]. rewrite EV in V. inversion V as [|? ? Vv Vvs]; subst.
+  split; [split; [exact Vvs|exact M]|].
+  set (diff := to_i64 n - len str) in *. apply Z.ltb_ge in ED.
+  exists (str ++ zeros diff). split; [reflexivity|]. intros us t (A & B & C & D) Hr.
+  rewrite <- B, ES. unfold u_read_str. cbn [u_set_fmt u_rest].
+  assert (L : len (str ++ zeros diff) = to_i64 n) by (rewrite len_app, len_zeros by lia; subst diff; lia).
+  rewrite Hr, len_app, L. pose proof (len_nonneg t). pose proof (len_nonneg str).
+  destruct (Z.ltb_spec (to_i64 n) 0); [lia|]. destruct (Z.ltb_spec (to_i64 n + len t) (to_i64 n)); [lia|]. cbn [orb].
+  assert (Hr' : u_rest (u_set_fmt us rest) = (str ++ zeros diff) ++ t) by exact Hr.
+  rewrite (u_read_app _ _ _ _ _ Hr') by (symmetry; exact L).
+  eexists. split; [reflexivity|]. split.
+  - unfold R, u_add, u_adv, p_emit, p_write, p_pop, u_set_fmt, p_set_fmt.
+    cbn [p_rd p_fmt p_w p_packed u_rd u_fmt u_j u_vals].
+    split; [exact A|split; [reflexivity|split]].
+    + rewrite len_app, L, C. reflexivity.
+    + rewrite D. reflexivity.
+  - unfold u_add. cbn [u_rest]. rewrite <- L. apply (u_adv_rest _ _ _ Hr').
+Qed.
+
+Lemma find_zero_app str t i : has_zero str = false -> find_zero (str ++ 0 :: t) i = Some (i + len str).
+Proof.
+  revert i; induction str as [|b r IH]; intros i Hz.
+  - cbn. f_equal. unfold len. cbn. lia.
+  - cbn [has_zero existsb] in Hz. apply orb_false_iff in Hz. destruct Hz as [Hb Hr].
+    cbn [app find_zero]. rewrite Hb. rewrite IH by exact Hr. f_equal. unfold len. cbn [length]. lia.
+Qed.
+
+Lemma opt_z : Sim NoAO (pack_opt 122) (unpack_opt 122).
+Proof.
+  open_opt. intros s s1 Hpre HP E. unfold NoAO in HP. unfold p_align in E. cbn [Z.eqb] in E. rewrite HP in E.
+  unfold p_next_str, p_next in E.
+  destruct (p_vals s) as [|v vs] eqn:EV; [discriminate|].
+  destruct (to_str v) as [str| |] eqn:ET; try discriminate.
+  destruct (has_zero str) eqn:HZ; [discriminate|]. injection E as <-.
+  destruct Hpre as [V M]. rewrite EV in V. inversion V as [|? ? Vv Vvs]; subst.
+  split; [split; [exact Vvs|exact M]|].
+  exists (str ++ [0]). split; [reflexivity|]. intros us t (A & B & C & D) Hr.
+  rewrite <- A, HP. rewrite <- app_assoc in Hr. cbn [app] in Hr.
+  rewrite Hr, find_zero_app by exact HZ. cbn [Z.add].
+  rewrite (u_read_app us str (0 :: t) _ _ Hr) by reflexivity.
+  pose proof (u_adv_rest us _ _ Hr) as Hr1.
+  assert (Hr2 : u_rest (u_add (u_adv us (len str)) (VStr str)) = [0] ++ t) by exact Hr1.
+  rewrite (u_skip_app _ [0] t 1 _ Hr2) by reflexivity.
+  eexists. split; [reflexivity|]. split.
+  - unfold R, u_add, u_adv, p_emit, p_write, p_pop.
+    cbn [p_rd p_fmt p_w p_packed u_rd u_fmt u_j u_vals].
+    split; [exact A|split; [exact B|split]].
+    + rewrite !len_app, C. change (len [0]) with 1. lia.
+    + rewrite D. reflexivity.
+  - apply (u_adv_rest _ [0] t Hr2).
+Qed.
+
+Lemma opt_s : Sim T (pack_opt 115) (unpack_opt 115).
+Proof.
+  open_opt. intros s s1 Hpre HP E.
+  destruct (smallOptSize 8 (p_fmt s)) as [[e|n] rest] eqn:ES; [discriminate|].
+  destruct (smallOptSize_pos 8 _ _ _ ltac:(lia) ES) as [Hn Hn16].
+  assert (Hk : (1 <= Z.to_nat n <= 16)%nat) by lia.
+  assert (En : n = Z.of_nat (Z.to_nat n)) by lia.
+  assert (SIM : Sim T (fun s => p_align n s (fun s => p_next_str s (fun str s =>
+                   match packUint n (len str) s with
+                   | PCont s' => PCont (p_emit (p_write s' str) (VStr str))
+                   | PFail EOutOfBounds => PFail EStringDoesNotFit
+                   | PFail e => PFail e end)))
+                (fun us => u_align n us (fun us =>
+                   readVarUint n us (fun l us' => u_read_str l us' (fun bs us'' => UCont (u_add us'' (VStr bs))))))).
+  { apply sim_align; [lia | closed | ].
+    unfold p_next_str. apply (sim_next _ (list Z) to_str srange); [closed | exact to_str_ok | ].
+    intros str Hstr s0 s2 Hpre0 HP0 E0.
+    destruct (packUint n (len str) s0) as [s'|e] eqn:EP; [|destruct e; discriminate]. injection E0 as <-.
+    pose proof (len_nonneg str). unfold srange in Hstr.
+    rewrite En in EP.
+    destruct (uint_roundtrip _ (len str) s0 s' Hk ltac:(unfold Model.H in *; lia) EP) as (bs & -> & Hrd).
+    split; [exact Hpre0|]. exists (bs ++ str). split; [cbn; now rewrite app_assoc|].
+    intros us t (A & B & C & D) Hr. rewrite <- app_assoc in Hr.
+    rewrite En, (Hrd us (str ++ t) _ (eq_sym (f_equal little A)) Hr).
+    pose proof (u_adv_rest us _ _ Hr) as Hr1.
+    unfold u_read_str. rewrite Hr1, len_app. pose proof (len_nonneg t).
+    destruct (Z.ltb_spec (len str) 0); [lia|]. destruct (Z.ltb_spec (len str + len t) (len str)); [lia|]. cbn [orb].
+    rewrite (u_read_app _ str t _ _ Hr1) by reflexivity.
+    eexists. split; [reflexivity|]. split.
+    - unfold R, u_add, u_adv, p_emit, p_write.
+      cbn [p_rd p_fmt p_w p_packed u_rd u_fmt u_j u_vals].
+      split; [exact A|split; [exact B|split]].
+      + rewrite !len_app, C. lia.
+      + rewrite D. reflexivity.
+    - unfold u_add. cbn [u_rest]. apply (u_adv_rest _ _ _ Hr1). }
+  assert (Hpre' : pre (p_set_fmt s rest)) by exact Hpre.
+  destruct (SIM (p_set_fmt s rest) s1 Hpre' I E) as (Hp1 & b0 & Hb0 & Hu).
+  split; [exact Hp1|]. exists b0. split; [exact Hb0|]. intros us t HR Hr.
+  destruct HR as (A & B & C & D).
+  assert (HR' : R (p_set_fmt s rest) (u_set_fmt us rest)) by (unfold R; cbn; auto).
+  destruct (Hu (u_set_fmt us rest) t HR' Hr) as (us1 & E1 & HR1 & Hr1).
+  exists us1. split; [|auto]. rewrite <- B, ES. exact E1.
+Qed.
+
 (* ------------------------------------------------------------ the option loop *)
-(* options covered by the lockstep proof so far: everything except s z c f *)
-Definition supported : list Z := [60; 62; 61; 33; 98; 66; 104; 72; 108; 106; 76; 74; 84; 105; 73; 100; 110; 120; 88; 32].
+Definition supported : list Z :=
+  [60; 62; 61; 33; 98; 66; 104; 72; 108; 106; 76; 74; 84; 105; 73; 102; 100; 110; 99; 122; 115; 120; 88; 32].
 
 Lemma opt_sim c : In c supported ->
   Sim (fun s => alignOnly (p_rd s) = true -> alignable c = true) (pack_opt c) (unpack_opt c).
@@ -405,60 +536,56 @@ Proof.
   - apply WT, opt_lt. - apply WT, opt_gt. - apply WT, opt_eq. - apply (WN eq_refl), opt_bang.
   - apply WT, opt_b. - apply WT, opt_B. - apply WT, opt_h. - apply WT, opt_H. - apply WT, opt_l. - apply WT, opt_j.
   - apply WT, opt_L. - apply WT, opt_J. - apply WT, opt_T.
-  - apply WT, opt_iI; auto. - apply WT, opt_iI; auto. - apply WT, opt_dn; auto. - apply WT, opt_dn; auto.
+  - apply WT, opt_iI; auto. - apply WT, opt_iI; auto. - apply WT, opt_f.
+  - apply WT, opt_dn; auto. - apply WT, opt_dn; auto.
+  - apply WT, opt_c. - apply (WN eq_refl), opt_z. - apply WT, opt_s.
   - apply WT, opt_x. - apply (WN eq_refl), opt_X. - apply (WN eq_refl), opt_space.
 Qed.
 
-(* every option character the packer dispatches on (i.e. not the digits of a size) is supported *)
-Fixpoint dispatched_ok (fuel : nat) (s : pst) : Prop :=
-  match fuel with
-  | O => True
-  | S f =>
-    match p_fmt s with
-    | [] => True
-    | c :: rest =>
-      In c supported /\
-      match pack_opt c (p_set_fmt s rest) with
-      | PCont s' => dispatched_ok f s'
-      | PFail _ => True
-      end
-    end
+(* any other option character is rejected by the packer *)
+Lemma pack_opt_unsupported c s : ~ In c supported -> pack_opt c s = PFail (EBadFormat c).
+Proof.
+  intros NI. unfold pack_opt.
+  repeat match goal with
+  | |- context [c =? ?k] =>
+    rewrite (proj2 (Z.eqb_neq c k)) by (intros ->; apply NI; unfold supported; cbn [In]; tauto)
   end.
+  reflexivity.
+Qed.
 
 Lemma loop_sim : forall fuel s us out packed,
-  pre s -> R s us -> dispatched_ok fuel s ->
+  pre s -> R s us ->
   pack_go fuel s = POk out packed ->
   exists b, out = p_w s ++ b /\
     forall t, u_rest us = b ++ t -> unpack_go fuel us = UOk packed (len out).
 Proof.
-  induction fuel as [|f IH]; intros s us out packed Hpre HR HD E; [discriminate|].
-  cbn [pack_go] in E. cbn [dispatched_ok] in HD.
+  induction fuel as [|f IH]; intros s us out packed Hpre HR E; [discriminate|].
+  cbn [pack_go] in E.
   destruct HR as (A & B & C & D).
   destruct (p_fmt s) as [|c rest] eqn:EF.
   - destruct (alignOnly (p_rd s)) eqn:EA; [discriminate|]. injection E as <- <-.
     exists []. split; [now rewrite app_nil_r|]. intros t _.
     cbn [unpack_go]. rewrite <- B, <- A, EA, C, D. reflexivity.
-  - destruct HD as [Hsup HD].
-    destruct (alignOnly (p_rd s) && negb (alignable c)) eqn:EX; [discriminate|].
+  - destruct (alignOnly (p_rd s) && negb (alignable c)) eqn:EX; [discriminate|].
     destruct (pack_opt c (p_set_fmt s rest)) as [s'|] eqn:EP; [|discriminate].
+    assert (Hsup : In c supported).
+    { destruct (in_dec Z.eq_dec c supported) as [i|n]; [exact i|].
+      rewrite (pack_opt_unsupported c _ n) in EP. discriminate. }
     assert (HP : alignOnly (p_rd (p_set_fmt s rest)) = true -> alignable c = true).
     { cbn [p_set_fmt p_rd]. intros Ht. destruct (alignable c); [reflexivity|]. rewrite Ht in EX. discriminate EX. }
     assert (HR0 : R (p_set_fmt s rest) (u_set_fmt us rest)) by (unfold R; cbn; auto).
     destruct (opt_sim c Hsup (p_set_fmt s rest) s' Hpre HP EP) as (Hp' & b0 & Hb0 & Hu).
     cbn [p_set_fmt p_w] in Hb0.
-    (* the IH needs an unpack state: obtain it for each t *)
     assert (HALL : forall t, u_rest us = b0 ++ t ->
               exists us1, unpack_opt c (u_set_fmt us rest) = UCont us1 /\ R s' us1 /\ u_rest us1 = t).
     { intros t Ht. apply (Hu (u_set_fmt us rest) t HR0 Ht). }
-    (* pack side continues from s' regardless of t; use IH with a generic related state *)
     assert (exists b', out = p_w s' ++ b' /\
               forall us1 t, R s' us1 -> u_rest us1 = b' ++ t -> unpack_go f us1 = UOk packed (len out)) as (b' & Hout & Hgo).
-    { (* IH is stated per us; re-run it with the canonical related state *)
-      set (uc := mkU (p_rd s') (p_fmt s') (len (p_w s')) [] (p_packed s')).
+    { set (uc := mkU (p_rd s') (p_fmt s') (len (p_w s')) [] (p_packed s')).
       assert (HRc : R s' uc) by (unfold R; cbn; auto).
-      destruct (IH s' uc out packed Hp' HRc HD E) as (b' & Hout & _).
+      destruct (IH s' uc out packed Hp' HRc E) as (b' & Hout & _).
       exists b'. split; [exact Hout|]. intros us1 t HR1 Hr1.
-      destruct (IH s' us1 out packed Hp' HR1 HD E) as (b'' & Hout' & Hgo').
+      destruct (IH s' us1 out packed Hp' HR1 E) as (b'' & Hout' & Hgo').
       apply (Hgo' t). rewrite Hr1. f_equal. rewrite Hout in Hout'. now apply app_inv_head in Hout'. }
     exists (b0 ++ b'). split; [rewrite Hout, Hb0; now rewrite app_assoc|].
     intros t Ht. rewrite <- app_assoc in Ht.
@@ -466,29 +593,27 @@ Proof.
     cbn [unpack_go]. rewrite <- B, <- A, EX, EU. apply (Hgo us1 t HR1 Hr1).
 Qed.
 
-Theorem unpack_pack_partial : forall fmt vs out packed,
+(* string.unpack(fmt, string.pack(fmt, v...)) returns the packed values and the next position:
+   every format string, every tuple of values that pack accepts *)
+Theorem unpack_pack : forall fmt vs out packed,
   Forall val_ok vs ->
-  dispatched_ok (S (length fmt)) (mkP rd0 fmt vs [] []) ->
   pack fmt vs = POk out packed ->
   unpack fmt out 0 = UOk packed (len out).
 Proof.
-  intros fmt vs out packed HV HD E. unfold pack in E. unfold unpack.
+  intros fmt vs out packed HV E. unfold pack in E. unfold unpack.
   assert (Hpre : pre (mkP rd0 fmt vs [] [])) by (split; [exact HV|cbn; lia]).
   assert (HR : R (mkP rd0 fmt vs [] []) (mkU rd0 fmt 0 (skipn (Z.to_nat 0) out) [])) by (unfold R; cbn; auto).
-  destruct (loop_sim _ _ _ out packed Hpre HR HD E) as (b & Hb & Hgo).
+  destruct (loop_sim _ _ _ out packed Hpre HR E) as (b & Hb & Hgo).
   apply (Hgo []). cbn [p_w app] in Hb. subst b. cbn. now rewrite app_nil_r.
 Qed.
 
-(* the hypotheses are satisfiable, with alignment, X, both byte orders, wide and narrow integers *)
+(* the hypotheses are satisfiable, with alignment, X, both byte orders, wide and narrow integers, strings, floats *)
 Example unpack_pack_example :
-  let fmt := [33; 52; 62; 98; 88; 105; 52; 105; 50; 60; 73; 49; 54; 120; 74; 100] in   (* "!4>bXi4i2<I16xJd" *)
-  let vs := [VInt (-5); VInt (-32768); VInt 77; VInt (-1); VFlt 4609434218613702656] in
-  (exists out, pack fmt vs = POk out vs) /\ dispatched_ok (S (length fmt)) (mkP rd0 fmt vs [] []).
+  let fmt := [33; 52; 62; 98; 88; 105; 52; 105; 50; 60; 73; 49; 54; 120; 74; 100; 115; 50; 122; 99; 52; 102] in   (* "!4>bXi4i2<I16xJds2zc4f" *)
+  let vs := [VInt (-5); VInt (-32768); VInt 77; VInt (-1); VFlt 4609434218613702656; VStr [104; 105]; VStr [65]; VStr [66]; VFlt 4609434218613702656] in
+  Forall val_ok vs /\ exists out packed, pack fmt vs = POk out packed.
 Proof.
-  vm_compute. split; [eexists; reflexivity|].
-  repeat match goal with
-         | |- _ /\ _ => split
-         | |- True => exact I
-         | |- _ \/ _ => (left; reflexivity) || right
-         end.
+  split.
+  - repeat constructor; cbn; unfold Model.H, W, len; cbn; lia.
+  - vm_compute. eauto.
 Qed.
